@@ -24,14 +24,14 @@ PROP = dict(
     stages=[
         dict(harness="c05_restart", flavour="plain", cases={Q: 2400, T: 30000}, timeout={Q: 1200, T: 7200}),
     ],
-    min_nontrivial={Q: 1200, T: 15000},
-    coverage_floor=[("c05_restart", "dynamic_comparisons", {Q: 2000000, T: 30000000}),
-                    ("c05_restart", "schedule_field_comparisons", {Q: 1000000, T: 15000000}),
-                    ("c05_restart", "restarted_schedules", {Q: 2000, T: 30000}),
-                    ("c05_restart", "cases_with_msw", {Q: 100, T: 1500}),
-                    ("c05_restart", "cases_with_udq", {Q: 100, T: 1500}),
-                    ("c05_restart", "cases_with_actionx", {Q: 50, T: 800}),
-                    ("c05_restart", "cases_with_inactive_cells", {Q: 600, T: 8000})],
+    min_nontrivial={Q: 1200, T: 11250},
+    coverage_floor=[("c05_restart", "dynamic_comparisons", {Q: 2000000, T: 18750000}),
+                    ("c05_restart", "schedule_field_comparisons", {Q: 1000000, T: 9375000}),
+                    ("c05_restart", "restarted_schedules", {Q: 2000, T: 18750}),
+                    ("c05_restart", "cases_with_msw", {Q: 100, T: 937}),
+                    ("c05_restart", "cases_with_udq", {Q: 100, T: 937}),
+                    ("c05_restart", "cases_with_actionx", {Q: 50, T: 468}),
+                    ("c05_restart", "cases_with_inactive_cells", {Q: 600, T: 5625})],
     not_decided=[
         "schedule: the position of a segment inside WellSegments (original: branch by branch, restarted: by number) is not compared, segments are matched by number; counted as 'segment storage order differs'",
         "dynamic: wells that do not flow (shut, stopped, open without open connection) are not compared (statement: flowing wells); "
